@@ -375,6 +375,24 @@ sprDone:
 			}
 		}
 		if rated {
+			// one exception to "observed rates": a rate that is ZERO by the rules (an asset not priced yet, a value
+			// outside the band from 2.0.2) stays zero for the admission rule, whatever the block recorded - a
+			// conversion the protocol forbids is not made legitimate by a wrong rate row (which C12 reports)
+			judged := obs
+			if x.Rates != nil {
+				for t, v := range obs {
+					if want, ok := x.Rates[t.String()]; ok && want == 0 && v != 0 {
+						if &judged == &obs || len(judged) == len(obs) {
+							c := make(map[fat2.PTicker]uint64, len(obs))
+							for k2, v2 := range judged {
+								c[k2] = v2
+							}
+							judged = c
+						}
+						judged[t] = 0
+					}
+				}
+			}
 			pip10 := h >= e.PIP10
 			L := rs.LastRatedBefore(h)
 			avgs := m.Averages(rs, L)
@@ -446,7 +464,7 @@ sprDone:
 							}
 						}
 					}
-					out := m.applyBatch(x, B, p.Batch, p.Entry, obs, avgs, h, true)
+					out := m.applyBatch(x, B, p.Batch, p.Entry, judged, avgs, h, true)
 					if out.Code > 0 && h >= e.ConversionLimit && h < e.V20 {
 						for ti, tx := range p.Batch.Transactions {
 							if tx.IsPEGRequest() {
